@@ -835,6 +835,15 @@ typedef struct .+_{} \{{
             context, context
         ))?;
 
+        // Only move the definition when it comes after its first user - anything declared in between
+        // (i.e. a user structure holding the context by value) must keep seeing a complete type.
+        let def_pos = ctx_def_regex.find(&header).map(|m| m.start());
+        let user_pos = ctx_user_regex.find(&header).map(|m| m.start());
+
+        if !matches!((def_pos, user_pos), (Some(d), Some(u)) if d > u) {
+            continue;
+        }
+
         if let Some(mut m) = ctx_def_regex.find(&header).map(|m| m.as_str().to_string()) {
             m.push_str("$0");
 
